@@ -81,6 +81,18 @@ def run(env, tier, seed, broken=None):
         cid = 's%d' % n; n += 1
         cases.append({'id': cid, 'src': '%s "%s";\n%s ["%s", 1];\n%s {k: "%s"};\n%s "%s" + "";\n' % (PRINT, s, PRINT, s, PRINT, s, PRINT, s)})
         smeta[cid] = s
+    cmeta = {}
+    for c in decomposable:
+        nfd = unicodedata.normalize('NFD', c)
+        if len(nfd) >= 2 and '"' not in nfd:
+            a, b = 'ক' + nfd[:1], nfd[1:] + 'ন'
+            cid = 'j%d' % n; n += 1
+            cases.append({'id': cid, 'src': '%s "%s" + "%s";\n%s ["%s" + "%s"];\n%s p = "%s"; %s q = "%s"; %s p + q;\n' % (PRINT, a, b, PRINT, a, b, VAR, a, VAR, b, PRINT)})
+            cmeta[cid] = unicodedata.normalize('NFC', a + b)
+    for a, b in [('e', '\u0301'), ('a', '\u030a'), ('কে', 'ান'), ('n', '\u0303o')]:
+        cid = 'j%d' % n; n += 1
+        cases.append({'id': cid, 'src': '%s "%s" + "%s";\n%s ["%s" + "%s"];\n%s p = "%s"; %s q = "%s"; %s p + q;\n' % (PRINT, a, b, PRINT, a, b, VAR, a, VAR, b, PRINT)})
+        cmeta[cid] = unicodedata.normalize('NFC', a + b)
     # nil / booleans / containers / functions
     for e, want in [(NIL, 'nil'), (TRUE, 'true'), (FALSE, 'false'), ('[1, [2, [3, []]], {}]', '[1 [2 [3 []]] map[]]'), ('{b: 1, a: [%s, %s], c: {d: "x"}}' % (NIL, TRUE), 'map[a:[<nil> true] b:1 c:map[d:x]]'),
                     ('[%s, "s", 1.5]' % NIL, '[<nil> s 1.5]'), (LEN, '<native fn len>'), (CLOCK, '<native fn>')]:
@@ -118,6 +130,10 @@ def run(env, tier, seed, broken=None):
                 pass
             if out != want:
                 mism.append({'case': c, 'reason': 'string output %r, expected the NFC form %r' % (out[:80], want[:80])})
+        elif c['id'] in cmeta:
+            exp = cmeta[c['id']]
+            if out != '%s\n[%s]\n%s\n' % (exp, exp, exp):
+                mism.append({'case': c, 'reason': 'concatenated string printed as %r, expected NFC %r' % (out[:60], exp)})
         elif 'want' in c:
             if out != c['want'] + '\n':
                 mism.append({'case': c, 'reason': 'printed %r, expected %r' % (out, c['want'])})
